@@ -6,7 +6,7 @@
    [wf_uparams], [wf_ip4], [wf_prefix] are what the Go parameter types
    guarantee (uint32 / uint16 ranges, 4-byte addresses, prefix length <= 32). *)
 From Coq Require Import List NArith Bool.
-From Verif Require Import Model.Wire Proofs.WireP Proofs.WireReadP Proofs.WireP_prefix.
+From Verif Require Import Model.Wire Proofs.WireP Proofs.WireReadP Proofs.WireDecP Proofs.WireP_prefix.
 Import ListNotations.
 Local Open Scope N_scope.
 
@@ -80,6 +80,31 @@ Proof. exact keepalive_wf. Qed.
 Theorem C16_read_open_bounded : forall bs,
   snd (read_open bs) <= len bs /\ (19 <= len bs -> snd (read_open bs) <= N.max 19 (hdr_len bs)).
 Proof. exact read_open_bounded. Qed.
+
+(* readOpen on every well-formed OPEN (version 4, hold time 0 or >= 3, any
+   capability list in any number of capability parameters; [dec_msg] accepts its
+   serialization by C16_dec_ser), followed by ANY further bytes on the stream:
+   success, the result is [understood o] (AS number: the last 4-octet capability
+   wins over the 2-octet field; hold time; MP IPv4/IPv6; 4-octet support), and
+   exactly the message is consumed.  [caps_only p]: p is a capability parameter
+   whose known capabilities (codes 1, 65) have their RFC length 4. *)
+Theorem C16_read_open_correct : forall o extra,
+  wf_msg true (MOpen o) -> Forall caps_only (o_params o) ->
+  read_open (ser_msg true (MOpen o) ++ extra) = (ROk (understood o), len (ser_msg true (MOpen o))).
+Proof. exact read_open_correct. Qed.
+
+(* the same, quantified over EVERY byte string (octets < 256) that the
+   independent decoder accepts as an OPEN with capability parameters only: the
+   decoder is injective on OPENs (C16_dec_open_inv), so this covers exactly the
+   well-formed OPENs *)
+Theorem C16_read_open_correct_dec : forall bs o extra,
+  wfb bs -> dec_msg true bs = Some (MOpen o) -> Forall is_pcaps (o_params o) ->
+  read_open (bs ++ extra) = (ROk (understood o), len bs).
+Proof. exact read_open_correct_dec. Qed.
+
+Theorem C16_dec_open_inv : forall w4 bs o, wfb bs -> dec_msg w4 bs = Some (MOpen o) ->
+  bs = ser_msg w4 (MOpen o) /\ wf_msg w4 (MOpen o).
+Proof. exact dec_open_inv. Qed.
 
 (* the independent decoder inverts the RFC serializer on every well-formed
    message (ties [ser_msg], used below to quantify over well-formed OPENs, to
